@@ -456,6 +456,86 @@ func c17(r *Report) {
 		r.Decide("path", "(*M/har.Logger).ExportAndReset: exactly the completed entries are exported and removed", okD, "append and delete on the Response != nil edge", "entries are removed without being exported (lost) or exported without being removed (duplicated later), or pending ones are exported", er.Pos())
 	})
 
+	r.Guard("C17.R4", "the reset endpoint exports before it clears exactly when asked to, and refuses a request it cannot read", func() {
+		pb := r.W.Fn("har", "parseBoolQueryParam")
+		rh := r.W.Fn("har", "resetHandler.ServeHTTP")
+		if pb == nil || pb.Blocks == nil || rh == nil || rh.Blocks == nil {
+			r.Undecided("M/har.parseBoolQueryParam / resetHandler.ServeHTTP", "UNRESOLVED")
+			return
+		}
+		r.Touch(pb)
+		r.Touch(rh)
+		// "not asked" is the absence of the parameter: the early (false, nil) is taken on a test of
+		// the parameter's presence in the query (the map entry is nil / has no values), never on its
+		// value being empty - `?return=` is a request the handler cannot read, and answering it by
+		// clearing the log without an export loses the completed entries
+		pbCalls := plainCalls(pb, "strconv.ParseBool")
+		okAbs := len(pbCalls) == 1
+		for _, ret := range returns(pb) {
+			afterParse := false
+			for _, c := range pbCalls {
+				if G(pb).Before(c, ret) {
+					afterParse = true
+				}
+			}
+			if afterParse {
+				continue
+			}
+			presence := false
+			for _, ce := range ctrlEdges(ret.Block()) {
+				b, isB := ce.If.Cond.(*ssa.BinOp)
+				if !isB {
+					continue
+				}
+				for _, side := range []ssa.Value{b.X, b.Y} {
+					if _, isLk := side.(*ssa.Lookup); isLk {
+						presence = true
+					}
+					if ex, isEx := side.(*ssa.Extract); isEx {
+						if _, isLk := ex.Tuple.(*ssa.Lookup); isLk {
+							presence = true
+						}
+					}
+					if c, isC := side.(*ssa.Call); isC {
+						if bi, isBi := c.Call.Value.(*ssa.Builtin); isBi && bi.Name() == "len" {
+							if _, isLk := c.Call.Args[0].(*ssa.Lookup); isLk {
+								presence = true
+							}
+						}
+						if calleeName(c) == "(net/url.Values).Has" {
+							presence = true
+						}
+					}
+				}
+				if ex, isEx := ce.If.Cond.(*ssa.Extract); isEx {
+					if _, isLk := ex.Tuple.(*ssa.Lookup); isLk {
+						presence = true
+					}
+				}
+				if isCallValue(ce.If.Cond, "(net/url.Values).Has") {
+					presence = true
+				}
+			}
+			if !presence {
+				okAbs = false
+			}
+		}
+		r.Decide("path", "M/har.parseBoolQueryParam: only an absent parameter means false", okAbs, "the early return is taken on the parameter's absence from the query", "a parameter that is present but cannot be read as a boolean (blank) is taken for false instead of being refused: the reset endpoint clears the log without handing out the completed entries", pb.Pos())
+		errorsReturnedRule(r, pb, false)
+		// the handler refuses (400) when the parameter cannot be read: no Reset / ExportAndReset on
+		// the error edge
+		for _, c := range plainCalls(rh, "M/har.parseBoolQueryParam") {
+			for _, e := range errTests(c) {
+				g := G(rh)
+				p := g.PathTo(blockStart(e.NonNil), true, nil, func(i ssa.Instruction) bool {
+					_, y := isCall(i, "(*M/har.Logger).Reset", "(*M/har.Logger).ExportAndReset")
+					return y
+				})
+				r.Decide("path", "(*M/har.resetHandler).ServeHTTP: an unreadable parameter changes nothing", p == nil, "no reset is reachable from the error edge", "the log is cleared although the request was refused", c.Pos())
+			}
+		}
+	})
+
 	r.Guard("C17.R5", "only the recording and resetting functions change the log; exporting alone changes nothing", func() {
 		// the index is created with the logger and replaced by Reset only: an export that
 		// rebuilds it can leave an entry of the ring without its slot
@@ -464,6 +544,9 @@ func c17(r *Report) {
 		// between calls (a pool that wraps hands out the same IDs again, and the log rejects
 		// the later exchange as a duplicate)
 		statelessRule(r, r.W.Fn("", "newID"), map[string]bool{}, "IDs repeat once the kept state wraps: the log rejects the later exchange as a duplicate ID and attaches its response to the earlier entry")
+		// ... and an ID is only handed out when the random source delivered it (an ID made of the
+		// zero bytes of a failed read is the same for every exchange)
+		errorsReturnedRule(r, r.W.Fn("", "newID"), false)
 		// what an export returns is a function of the ring and the map alone: no branch of
 		// Export / ExportAndReset looks at other logger state (a counter or a generation
 		// number kept beside the list can disagree with it)
